@@ -6,45 +6,56 @@ Section Inject.
 Variable is_iface : nat -> bool.                 (* t.Kind() == reflect.Interface *)
 Variable implements : nat -> nat -> bool.        (* k.Implements(t), t an interface *)
 
-Definition scope := list (nat * nat).            (* (type, value) registrations, oldest first *)
+(* (type, value) registrations, oldest first; the value None is an invalid reflect.Value (MapTo of an untyped
+   nil, Set with the zero Value): the key is in the map, IsValid() is false *)
+Definition scope := list (nat * option nat).
 
 (* inj.values[t]: a later registration for the same type replaces the earlier *)
-Fixpoint lookup (s : scope) (t : nat) : option nat :=
+Fixpoint lookup (s : scope) (t : nat) : option (option nat) :=
   match s with
   | [] => None
   | (k, v) :: s' => match lookup s' t with Some w => Some w | None => if Nat.eqb k t then Some v else None end
   end.
 
 (* the map's current entries: for every key its last value *)
-Fixpoint entries (s : scope) : list (nat * nat) :=
+Fixpoint entries (s : scope) : list (nat * option nat) :=
   match s with
   | [] => []
   | (k, v) :: s' => if existsb (fun e => Nat.eqb (fst e) k) s' then entries s' else (k, v) :: entries s'
   end.
 
-(* values registered in this scope under a type implementing interface t (Go picks any of them) *)
-Definition implementors (s : scope) (t : nat) : list nat :=
-  map snd (filter (fun e => implements (fst e) t) (entries s)).
+(* entries of this scope whose key implements interface t (Go's range over the map picks any of them) *)
+Definition impl_entries (s : scope) (t : nat) : list (nat * option nat) :=
+  filter (fun e => implements (fst e) t) (entries s).
 
-(* Injector.Value over the chain of scopes, nearest first: the set of admissible answers *)
+(* the valid values among them *)
+Definition implementors (s : scope) (t : nat) : list nat :=
+  flat_map (fun e => match snd e with Some v => [v] | None => [] end) (impl_entries s t).
+
+(* Injector.Value over the chain of scopes, nearest first: the set of admissible answers.
+     val := values[t]; if val.IsValid() return val
+     if t is an interface: for k, v := range values { if k.Implements(t) { val = v; break } }
+     if !val.IsValid() && parent != nil: val = parent.Value(t) *)
 Fixpoint value (scopes : list scope) (t : nat) : list nat :=
   match scopes with
   | [] => []
   | s :: parents =>
       match lookup s t with
-      | Some v => [v]
-      | None =>
+      | Some (Some v) => [v]
+      | _ =>
           if is_iface t then
-            match implementors s t with
+            match impl_entries s t with
             | [] => value parents t
-            | vs => vs
+            | es => flat_map (fun e => match snd e with Some v => [v] | None => value parents t end) es
             end
           else value parents t
       end
   end.
 
 (* Map / MapTo / Set all come down to values[key] = v *)
-Definition register (s : scope) (k v : nat) : scope := s ++ [(k, v)].
+Definition register_val (s : scope) (k : nat) (v : option nat) : scope := s ++ [(k, v)].
+Definition register (s : scope) (k v : nat) : scope := register_val s k (Some v).
+Definition register_invalid (s : scope) (k : nat) : scope := register_val s k None.
 
 (* Invoke: resolve the parameters in order; the first unresolvable one is reported and the body does
    not run.  The result lists, per parameter, the admissible values. *)
